@@ -2,7 +2,7 @@
 # tools/seedimport.sh <ID> : copies a sub-agent's deliverables from /tmp/seed/out/<ID>/{a,b} into /verif/seeded/<ID>/{a,b}
 cd "$(dirname "$0")/.." || exit 2
 id=$1
-for v in a b; do
+for v in ${SEED_VARIANTS:-a b}; do
   src=/tmp/seed/out/$id/$v
   [ -f "$src/patch.diff" ] || { echo "$id/$v: no patch"; continue; }
   dst=seeded/$id/$v; mkdir -p "$dst"
